@@ -782,6 +782,39 @@ def gen_structured(rng, n, what):
     return out[:n], dist
 
 
+def directed_faultfree():
+    """Hand-written fault-free lines for grammar corners the conventional generator does not reach: a value of the LAST
+    positional directly followed by a subcommand name, after a multi-valued positional (`<srcs>... <dest> <push|pull>`)
+    or after an optional positional under allow_missing_positional (`[profile] <target> [run]`).  The documented reading:
+    the name is the subcommand, the word before it belongs to the last positional (seeded change C10-2)."""
+    def pos(i, **kw):
+        a = {"id": i, "flags": set()}
+        a.update(kw)
+        return a
+
+    def sub(n):
+        return {"name": n, "about": b"A:" + n, "args": [{"id": b"f", "long": b"force", "action": "settrue", "flags": set()}],
+                "groups": [], "subs": [], "settings": [], "aliases": []}
+    out = []
+    for req in (False, True):
+        c = {"name": b"p", "about": b"A:p", "groups": [], "aliases": [],
+             "settings": ["subcommand_required"] if req else [],
+             "args": [{"id": b"v", "short": "v", "action": "settrue", "flags": set()},
+                      pos(b"srcs", num=(1, None), flags={"required"}), pos(b"dest", flags={"required"})],
+             "subs": [sub(b"push"), sub(b"pull")]}
+        lines = [[b"a", b"out", b"push"], [b"a", b"b", b"out", b"pull"], [b"-v", b"a", b"out", b"push", b"--force"],
+                 [b"a", b"b", b"c", b"out", b"pull"]]
+        if not req:
+            lines += [[b"a", b"out"], [b"a", b"b", b"out"]]
+        for ln in lines:
+            out.append(annotate(case_of(c, [b"prog"] + ln), ["ok"], "none"))
+    c = {"name": b"p", "about": b"A:p", "groups": [], "aliases": [], "settings": ["allow_missing_positional"],
+         "args": [pos(b"profile"), pos(b"target", flags={"required"})], "subs": [sub(b"run")]}
+    for ln in ([b"web", b"run"], [b"web"], [b"prod", b"web", b"run"], [b"prod", b"web"], [b"web", b"run", b"--force"]):
+        out.append(annotate(case_of(c, [b"prog"] + ln), ["ok"], "none"))
+    return out
+
+
 def result_dist(store):
     def add(impl):
         p = parse_result(impl)
@@ -1302,6 +1335,9 @@ def streams(tier, rng):
                       describe={"variants": source_kind_names()}))
     for name, n in (("faultfree", n_ff), ("fault", n_fault), ("helpver", n_hv)):
         cases, dist = gen_structured(rng, n, name)
+        if name == "faultfree":
+            cases = directed_faultfree() + cases
+            dist["directed"] += len(directed_faultfree())
         outcomes = collections.Counter()
         out.append(Stream(name, cases, oracle=structured_oracle(outcomes), area="parse", project=project,
                           nontrivial=structured_nontrivial,
